@@ -109,11 +109,14 @@ package texttable
 //@ -- witness per column of the cell whose measured width the column has (-1: the header cell, r >= 0: row r)
 //@ ghost var ttWit (Array Int Int)
 //@ ghost var ttContent Int
+//@ -- which emitter method produced the string about to be written (1 header top, 2 header content, 3 header rule,
+//@ -- 4 body top, 5 separator rule, 6 body content, 7 bottom)
+//@ ghost var ttLast Int
 
 //@ func (*TextTable).RenderTo
 //@   tags C03,C04,C15,C17,C09,C14
 //@   requires t != nil && tbl(t.Table) && ttab(t).nColumns <= 1048576
-//@   assigns heap[tabular.propertyImpl.properties], new(tabular.valueProperty), ttab(t).ErrorContainer.errors_, elemscap(ttab(t).ErrorContainer.errors_), ghost cbErrN, ghost cbErrLog, ghost cbCallN, ghost cbCallSelf, ghost cbCallOwner, ghost stage, ghost fires, ghost stageR, ghost firesR, ghost stageT, ghost stageC, ghost Wn, ghost Wchunk, ghost Wfailed, ghost ttRules, ghost ttContent, ghost ttWit, ghost ttLineWit, new(int), new(string), new(align.Alignment), new(decoration.WidthString), new([]decoration.WidthString), new(decoration.emitter), new(tabular.Cell)
+//@   assigns heap[tabular.propertyImpl.properties], new(tabular.valueProperty), ttab(t).ErrorContainer.errors_, elemscap(ttab(t).ErrorContainer.errors_), ghost cbErrN, ghost cbErrLog, ghost cbCallN, ghost cbCallSelf, ghost cbCallOwner, ghost stage, ghost fires, ghost stageR, ghost firesR, ghost stageT, ghost stageC, ghost Wn, ghost Wchunk, ghost Wfailed, ghost ttRules, ghost ttContent, ghost ttLast, ghost ttWit, ghost ttLineWit, new(int), new(string), new(align.Alignment), new(decoration.WidthString), new([]decoration.WidthString), new(decoration.emitter), new(tabular.Cell)
 //@   requires [writer-ok] !Wfailed
 //@   call InvokeRenderCallbacks after assume alignsValid(ttab(t)) && measuredOK()
 //@   ensures [exactly-one-render-pass] !(t.decor == decoration.EmptyDecoration) ==> stageT[ttab(t)] == old(stageT)[ttab(t)] + 2 @C13
@@ -156,6 +159,20 @@ package texttable
 //@   call ForColumnWidths before assert [column-no-wider-than-its-widest-cell] forall i int :: {columnWidths[i]} 0 <= i && i < columnCount ==> (columnWidths[i] == 0 || (ttWit[i] == -1 && ttab(t).headerRow != nil && i < len(headers) && columnWidths[i] == cellW(&headers[i])) || (0 <= ttWit[i] && ttWit[i] < len(ttab(t).rows) && !ttab(t).rows[ttWit[i]].isSeparator && i < len(ttab(t).rows[ttWit[i]].cells) && columnWidths[i] == cellW(&ttab(t).rows[ttWit[i]].cells[i]))) @C03
 //@   call ForColumnWidths before assert [column-fits-its-widest-cell] (forall i int :: {columnWidths[i]} 0 <= i && i < len(headers) && i < columnCount ==> cellW(&headers[i]) <= columnWidths[i]) && (forall r int, i int :: {&ttab(t).rows[r].cells[i]} 0 <= r && r < len(ttab(t).rows) && !ttab(t).rows[r].isSeparator && 0 <= i && i < len(ttab(t).rows[r].cells) ==> cellW(&ttab(t).rows[r].cells[i]) <= columnWidths[i]) @C03
 //@   call ForColumnWidths before assert [effective-alignment-own-else-column-0] forall i int :: {columnAligns[i]} 0 <= i && i < columnCount ==> columnAligns[i] == effAlign(ttab(t), i) @C04
+//@   call LineHeaderTop after ghost ttLast = 1
+//@   call HeaderLineRendered after ghost ttLast = 2
+//@   call LineHeaderBodySep after ghost ttLast = 3
+//@   call LineBodyTop after ghost ttLast = 4
+//@   call LineSeparator after ghost ttLast = 5
+//@   call BodyLineRendered after ghost ttLast = 6
+//@   call LineBottom after ghost ttLast = 7
+//@   call WriteString#1 before assert [top-rule-of-a-table-with-headers] ttLast == 1 @C03
+//@   call WriteString#2 before assert [header-content-line] ttLast == 2 @C03
+//@   call WriteString#3 before assert [rule-closing-the-header-block] ttLast == 3 @C03
+//@   call WriteString#4 before assert [top-rule-of-a-table-without-headers] ttLast == 4 @C03
+//@   call WriteString#5 before assert [rule-for-a-separator-row] ttLast == 5 @C03
+//@   call WriteString#6 before assert [body-content-line] ttLast == 6 @C03
+//@   call WriteString#7 before assert [bottom-rule] ttLast == 7 @C03
 //@   call WriteString#1 after ghost ttRules = ttRules + 1
 //@   call WriteString#2 after ghost ttContent = ttContent + 1
 //@   call WriteString#3 after ghost ttRules = ttRules + 1
